@@ -229,3 +229,36 @@ Example C09_nonvacuous :
           [ [(0%nat, DLeft); (3%nat, DRight)]; [(1%nat, DLeft)]; [(2%nat, DLeft)]; [(5%nat, DLeft)]; [(7%nat, DLeft)] ]).
 Proof. split; [apply rvalidb_sound; vm_compute; reflexivity | vm_compute; reflexivity]. Qed.
 Print Assumptions C09_nonvacuous.
+
+(* ==== composition with C03 (work package compose1) ============================================================= *)
+From DBG Require Import Proofs.RecompKmers.
+
+(* ---- k-mer level, FULL ------------------------------------------------------------------------------------------ *)
+(* The k-mers of compress_graph's result are exactly the k-mers of the non-censored input nodes (canonical forms when
+   unstranded), as MULTISETS, for every valid graph and censor list.  Consequently, as soon as the surviving input nodes
+   carry each of their k-mers once (every graph built from a k-mer set does; [rvalid] itself only asks for distinct node
+   ENDS), each k-mer occurs exactly once in the result: [kmers_exact], the Prop decided by chk.c09.kmers.
+   Proof: node partition (C09_recompress_kmers_partial) + n_seq = sequence_of_path of the node path
+   (C09_recompress_nodes_partial) + C03_path_spelling, after showing that a node path of compress_graph - consecutive
+   nodes joined by sole mutual links - is a valid walk of the restricted graph in C03's sense; in stranded graphs a node
+   path never changes strand, in unstranded graphs canon (rc x) = canon x. *)
+Theorem C09_recompress_kmers : forall D reduce join K stranded, (forall a b, join a b = join b a) ->
+  forall (g : graph D) censor out paths,
+  rvalid D K stranded g -> compress_graph_paths D reduce join K stranded g censor = Some (out, paths) ->
+  Permutation (graph_kmers D K stranded out) (surv_kmers D K stranded g (survivors D g censor)) /\
+  (NoDup (surv_kmers D K stranded g (survivors D g censor)) -> kmers_exact D K stranded g censor out).
+Proof. exact recompress_kmers_exact. Qed.
+Print Assumptions C09_recompress_kmers.
+
+(* the bridge lemma: a node path of compress_graph is a valid walk of C03 *)
+Theorem C09_node_path_valid_walk : forall D join K stranded (g : graph D) S p,
+  winv D K stranded g S -> (forall x, In x p -> (fst x < length g)%nat) -> Linked D join K stranded g p ->
+  EdgeSpec.valid_walk D K stranded g p.
+Proof. exact Linked_valid_walk. Qed.
+Print Assumptions C09_node_path_valid_walk.
+
+(* non-vacuity: the surviving nodes of the example carry each canonical 4-mer once *)
+Example C09_nonvacuous_kmers :
+  NoDup (surv_kmers rpay 4 false ex_g (survivors rpay ex_g (Some [4; 6]%nat))).
+Proof. apply nodupb_sound. vm_compute. reflexivity. Qed.
+Print Assumptions C09_nonvacuous_kmers.
